@@ -4,5 +4,5 @@
 set -e
 cd "$(dirname "$0")/harness"
 export CARGO_NET_OFFLINE=true
-cargo build --release -q -p rt
+cargo build --release -q -p rt -p progen
 echo "setup ok"
